@@ -233,7 +233,9 @@ func runC17Faults(t *testing.T, c *Collector) {
 			c.count("foreign_oracle_verdicts_ignored", 1)
 			continue
 		}
-		c.count("fault_points:"+fsq.name, total)
+		if c.job.Shard == 0 {
+			c.count("fault_points:"+fsq.name, total)
+		}
 		for n := int64(1); n <= total; n++ {
 			mine := unit%c.job.NShards == c.job.Shard
 			unit++
